@@ -335,6 +335,8 @@ func (g *Engine) runHarness(h *Harness, solverKind string, timeoutMs int) (res *
 	cond := sync.NewCond(&mu)
 	queue := [][]decision{{}}
 	idle, nPaths, done := 0, 0, false
+	var spent time.Duration
+	tStart := t0
 	nWorkers, nSpawned := 1, 1
 	var spawn func(w int)
 	vioSeen := map[string]bool{}
@@ -422,6 +424,7 @@ func (g *Engine) runHarness(h *Harness, solverKind string, timeoutMs int) (res *
 			if !ok {
 				break
 			}
+			lastTick := time.Now()
 			e.decisions = item
 			e.floor = len(item)
 			for {
@@ -429,7 +432,12 @@ func (g *Engine) runHarness(h *Harness, solverKind string, timeoutMs int) (res *
 				nPaths++
 				over := nPaths > h.MaxPaths
 				why := fmt.Sprintf("path cap %d reached", h.MaxPaths)
-				if h.TimeCapS > 0 && time.Since(t0) > time.Duration(h.TimeCapS)*time.Second {
+				// the time cap is a budget of worker time (cap x pool size), so that it does not
+				// depend on how many harnesses share the pool in this process
+				now := time.Now()
+				spent += now.Sub(lastTick)
+				lastTick = now
+				if h.TimeCapS > 0 && (spent > time.Duration(h.TimeCapS)*time.Second*time.Duration(g.maxWorkers) || time.Since(tStart) > 4*time.Duration(h.TimeCapS)*time.Second) {
 					over, why = true, fmt.Sprintf("time cap %ds reached after %d paths", h.TimeCapS, nPaths)
 				}
 				mu.Unlock()
@@ -560,6 +568,9 @@ func (g *Engine) runHarness(h *Harness, solverKind string, timeoutMs int) (res *
 		}()
 	}
 	<-g.tokens
+	mu.Lock()
+	tStart = time.Now()
+	mu.Unlock()
 	nWorkers = 1
 	spawn(0)
 	wg.Wait()
